@@ -1,7 +1,33 @@
-(* placeholder until the codec theorems land *)
+(* C03 - the server completes login only on the matching client finalization.
+   Statements only; proofs live in Theory/. *)
 From Coq Require Import List.
-From OKE Require Import BytesLemmas.
-Theorem C03_placeholder : forall l x y px py r1 r2,
-  Bytes.lenprefix l x = Some px -> Bytes.lenprefix l y = Some py -> px ++ r1 = py ++ r2 -> x = y /\ r1 = r2.
-Proof. exact lenprefix_inj. Qed.
-Print Assumptions C03_placeholder.
+From OKE Require Import Bytes Suite Messages TripleDH Opaque Api Accept.
+Import ListNotations.
+
+(* exactly one byte string is accepted by a pending server login state, and the key
+   released is the stored session key; unconditional, real and fake records alike *)
+Theorem C03_accept_iff_expected :
+  forall E Sc Pk Sk (CS : Suite E Sc Pk Sk) st m k,
+    server_login_finish CS st m = Ok k <->
+    cf_mac m = h_hmac (hash CS) (sl_km3 st) (sl_hashed_transcript st) /\ k = sl_session_key st.
+Proof. exact @server_finish_accept_iff. Qed.
+Print Assumptions C03_accept_iff_expected.
+
+(* every other message of any length is answered with the invalid-login error *)
+Theorem C03_others_invalid_login :
+  forall E Sc Pk Sk (CS : Suite E Sc Pk Sk) st m,
+    cf_mac m <> h_hmac (hash CS) (sl_km3 st) (sl_hashed_transcript st) ->
+    server_login_finish CS st m = Err EInvalidLogin.
+Proof. exact @server_finish_reject. Qed.
+Print Assumptions C03_others_invalid_login.
+
+(* the same at the byte-level API: for every string of the finalization length *)
+Theorem C03_api_bytes :
+  forall E Sc Pk Sk (CS : Suite E Sc Pk Sk) st_bytes st f,
+    server_login_deserialize CS st_bytes = Ok st ->
+    length f = h_len (hash CS) ->
+    run_request CS (QSrvLoginFinish st_bytes f) =
+      if bytes_eqb (h_hmac (hash CS) (sl_km3 st) (sl_hashed_transcript st)) f
+      then ROk [TB (sl_session_key st)] else RErr EInvalidLogin.
+Proof. exact @api_server_finish_bytes. Qed.
+Print Assumptions C03_api_bytes.
